@@ -75,6 +75,14 @@ def run_stop(env, op_name, variables, oseed, density, plan, schedule, early, sto
     def on_quiescent(s):
         if frozen["on"]:
             frozen["on"] = False
+            closing = [g for g in s.pending_gates() if str(g[0]).startswith("close:")]
+            if closing and not s.main_task.done() and out["awaiting_library"]:
+                # the caller may be waiting for the asynchronous finalisation of a source: let it finish and
+                # look again at the next quiescence
+                for g in closing:
+                    g[1].set_result(None)
+                frozen["on"] = True
+                return
             if not s.main_task.done() and out["awaiting_library"]:
                 out["prompt_violation"] = (f"after {stop['kind']} the caller was still waiting at the next "
                                            f"quiescence; gates pending {[g[0] for g in s.pending_gates()][:4]}")
@@ -302,6 +310,11 @@ def g_scenario(c, n_sched=3):
         # few awaitable fields: a stretched list multiplies every gate below it by a hundred
         sc["plans"] = [[p[0], min(p[1], 40), min(p[2], 80), p[3], min(p[4], 12), long] for p in sc["plans"]]
         sc["long"] = long
+    if not plain and c.chance(100):
+        # sources with an asynchronous finalisation: the generator's `finally` awaits a gate, so that a stop,
+        # the hook or the end of the response can be observed while a source is still closing
+        sc["plans"] = [(list(p) + [0])[:6] + [c.choose([128, 255])] for p in sc["plans"]]
+        sc["async_close"] = True
     return sc
 
 
@@ -313,6 +326,8 @@ def _scenarios(nex, n_sched):
             ctx.cls("status:" + status)
             for _d, _p, stop in sc["stops"]:
                 ctx.cls("stop:" + stop["kind"] + (":plain" if stop.get("plain") else ""))
+            if sc.get("async_close"):
+                ctx.cls("async-close-stratum")
             if sc.get("long"):
                 ctx.cls("long-list-stratum" + (":with-stream" if "@stream" in str(sc["doc"]["tree"]["defs"][0]["sel"])[:4000] else ""))
             for x in nt:
